@@ -13,7 +13,14 @@ TEXT = {
           "to the code by scenarios on a real node comparing every call outcome, IsSporkActive on every height, the report "
           "and method availability around each enforcement height; a third of the scenarios run the real contract with a "
           "community key the harness holds and a window of a few momentums (calls before, inside, after the window, also "
-          "acknowledging an older momentum inside it).",
+          "acknowledging an older momentum inside it). Sporks DEFINED IN THE GENESIS CONFIGURATION (SporkConfig: activated "
+          "with enforcement height 0 / a low / a later height, defined but not activated) are part of the model's initial "
+          "state (defineGenesis): active from their configured height on - with height 0 from the first momentum after "
+          "genesis, there is no range of heights that is too early for every spork (genesis_gate_by_height) -, their "
+          "activation cannot be repeated whatever the stored height (genesis_activation_not_repeated), once enforced never "
+          "switched off (genesis_feature_never_switched_off); every third scenario starts a real node on a generated "
+          "SporkConfig and compares every height from 2 on, all gated methods, real gated calls at the first heights and "
+          "repeated activation attempts.",
   "design_ref": "§3 C17",
   "note": "Method tables enter as generated facts (trusted extractor calling the real function); F17 (out-of-order "
           "activation exposes features of not-enforced sporks) is a known finding.",
@@ -446,7 +453,10 @@ TEXT = {
           "field order, contract addresses) and a differential stream on the real NewGenesis / CheckGenesis / "
           "ReadGenesisConfigFromFile / chain.Init, and through the node-level path (node.NewNode on genesis files, several nodes in "
           "one process: the genesis follows the contents of the configured file, not the path or what the process loaded before; "
-          "start on a foreign database refused).",
+          "start on a foreign database refused). One genesis object initialising several ledgers in one process: every "
+          "ledger that ends up initialised holds the full configured initial state (byte for byte the first ledger's key "
+          "space), a later start on it is refused or finds that state (model-free monitor; a refused / crashing second "
+          "initialisation is counted, not judged).",
   "design_ref": "§3 C20",
   "note": "Permutation / fresh-process invariance of the whole genesis momentum is decided on the real code by the stream's "
           "monitor, not by a theorem. The six defects the check had found in the validators (F13a-f: no contract entry, "
